@@ -73,9 +73,9 @@ def schedules(ctx, stream, rnd):
                 if pos < n:
                     ev += [("chunk", stream[pos:])]
                 scheds.append(ev)
-        if ctx.thorough():
+        if ctx.thorough() or n <= 24:
             for p1, p2 in itertools.combinations(range(n + 1), 2):
-                if (p1 + p2) % 3:
+                if (p1 + p2) % 3 and n > 24:
                     continue
                 scheds.append([("chunk", stream[:p1]), ("timeout",), ("chunk", stream[p1:p2]), ("timeout",), ("chunk", stream[p2:])])
     if n > 60000:
